@@ -276,6 +276,17 @@ def check(pid, tier, seed):
                 extra = [x for x in axs if x not in ALLOWED_AXIOMS]
                 if extra:
                     broken.append(("audit", th, "depends on %s" % extra))
+        recheck = None
+        if bok and names and tier == "thorough":
+            # independent re-check of the compiled .olean files
+            try:
+                lp = subprocess.run(["lake", "env", "leanchecker"] + ["MafModel.Props.%s" % m for m in props_modules(pid)],
+                                    cwd=LEAN_DIR, stdout=subprocess.PIPE, stderr=subprocess.STDOUT, text=True, timeout=1800)
+                recheck = {"rc": lp.returncode, "tail": lp.stdout[-300:]}
+                if lp.returncode != 0:
+                    broken.append(("audit", "leanchecker", lp.stdout[-1500:]))
+            except subprocess.TimeoutExpired:
+                recheck = {"rc": None, "tail": "timeout"}
         bad = grep_forbidden()
         if bad:
             broken.append(("audit", "forbidden construct", "; ".join(bad[:5])))
@@ -359,6 +370,7 @@ def check(pid, tier, seed):
         "dontcare_zone": out.dontcare,
         "broken": [{"kind": b[0], "name": b[1]} for b in broken],
         "notes": out.notes,
+        "leanchecker": recheck,
     }
     cov.update(out.extra)
     if not n_obl:
